@@ -78,6 +78,7 @@ fn main() {
         inconclusive: Mutex::new(vec![]),
         notes: Mutex::new(vec![]),
         only_sub,
+        setup_failures: Mutex::new(0),
     };
 
     // oracle self-tests: a broken oracle never accuses the code
@@ -131,6 +132,10 @@ fn main() {
     }
     drop(tot);
     let nviol = ctx.violations.lock().unwrap().len();
+    let nsetup = *ctx.setup_failures.lock().unwrap();
+    if nsetup > 0 {
+        ctx.inconclusive(format!("{nsetup} case(s) could not be set up (honest prefix / build failed); see DESIGN.md 1.3"));
+    }
     let inconclusive = ctx.inconclusive.lock().unwrap().clone();
     write_evidence(&ctx, pd, nviol);
     let wall = ctx.start.elapsed().as_secs_f64();
